@@ -5,11 +5,12 @@ package main
 // changed. specs/locals.json records, for every function under contract, the ordered list of its declared variables
 // (receiver, parameters, named results, locals in source order) with their types, taken from the tree the contracts
 // were written against (`govc locals`). When a function's current list has the same length and the same types
-// position by position but different names, the old names are rebound to the new ones positionally. Anything else
-// (added/removed/retyped variables) leaves name-based resolution as it is.
+// position by position but different names, the old names are rebound to the new ones positionally. When the lists
+// differ in more than names, a vanished name is rebound to a new one only if the pairing is forced (one of each, per type).
 
 import (
 	"encoding/json"
+	"fmt"
 	"go/ast"
 	"go/types"
 	"os"
@@ -73,6 +74,41 @@ func (w *World) loadRecordedLocals(root string) {
 		return
 	}
 	_ = json.Unmarshal(b, &w.recLocals)
+	w.recLoopVars = map[string]map[string][]string{}
+	if b, err := os.ReadFile(filepath.Join(root, "specs", "loopvars.json")); err == nil {
+		_ = json.Unmarshal(b, &w.recLoopVars)
+	}
+}
+
+// loopVarsOf: for every loop of fn (by ordinal) the names of its loop-carried variables (phis of the header).
+func (w *World) loopVarsOf(fn *ssa.Function) map[string][]string {
+	out := map[string][]string{}
+	li := w.Loops(fn)
+	for h, ord := range li.Ord {
+		var names []string
+		for _, in := range h.Instrs {
+			p, ok := in.(*ssa.Phi)
+			if !ok {
+				break
+			}
+			if p.Comment != "" {
+				names = append(names, p.Comment)
+			}
+		}
+		sort.Strings(names)
+		out[fmt.Sprint(ord)] = names
+	}
+	return out
+}
+
+// wasCounterOf: name was a loop-carried variable of loop ord of fn when the contracts were recorded.
+func (w *World) wasLoopVar(fn *ssa.Function, ord int, name string) bool {
+	for _, n := range w.recLoopVars[funcKey(fn)][fmt.Sprint(ord)] {
+		if n == name {
+			return true
+		}
+	}
+	return false
 }
 
 // renames: old name -> current name for fn, when the declared-variable list differs from the recorded one by names only.
@@ -109,6 +145,96 @@ func (w *World) renames(fn *ssa.Function) map[string]string {
 			}
 		}
 	}
+	if m == nil && len(rec) > 0 && len(cur) > 0 && len(rec)*len(cur) <= 250000 {
+		// the lists differ in length (temporaries added or removed): align the two declaration sequences, keeping their
+		// order, so that as many variables as possible keep name and type (3 points) or at least their type (1 point);
+		// an old name aligned with a different new name of the same type is rebound to it. As below, a wrong pairing
+		// cannot prove anything false.
+		n, k := len(rec), len(cur)
+		score := make([][]int, n+1)
+		for i := range score {
+			score[i] = make([]int, k+1)
+		}
+		pair := func(i, j int) int {
+			if rec[i].Type != cur[j].Type {
+				return -1
+			}
+			if rec[i].Name == cur[j].Name {
+				return 3
+			}
+			return 1
+		}
+		for i := n - 1; i >= 0; i-- {
+			for j := k - 1; j >= 0; j-- {
+				best := score[i+1][j]
+				if score[i][j+1] > best {
+					best = score[i][j+1]
+				}
+				if p := pair(i, j); p > 0 && score[i+1][j+1]+p > best {
+					best = score[i+1][j+1] + p
+				}
+				score[i][j] = best
+			}
+		}
+		curNames := map[string]bool{}
+		for _, d := range cur {
+			curNames[d.Name] = true
+		}
+		for i, j := 0, 0; i < n && j < k; {
+			p := pair(i, j)
+			switch {
+			case p > 0 && score[i][j] == score[i+1][j+1]+p:
+				if p == 1 && !curNames[rec[i].Name] {
+					if m == nil {
+						m = map[string]string{}
+					}
+					if _, dup := m[rec[i].Name]; !dup {
+						m[rec[i].Name] = cur[j].Name
+					}
+				}
+				i, j = i+1, j+1
+			case score[i][j] == score[i+1][j]:
+				i++
+			default:
+				j++
+			}
+		}
+	}
+	if m == nil && len(rec) > 0 && len(cur) > 0 {
+		// the lists differ by more than names (a temporary added or removed, statements restructured): names that vanished
+		// and names that appeared are paired when the pairing is forced - for a type, exactly one vanished and exactly one
+		// new name. A wrong pairing cannot prove anything false: locals occur only in loop invariants, and an invariant
+		// that is established and preserved is true whatever variable it speaks about.
+		count := func(ds []localDecl) map[localDecl]int {
+			c := map[localDecl]int{}
+			for _, d := range ds {
+				c[d]++
+			}
+			return c
+		}
+		rc, cc := count(rec), count(cur)
+		gone, came := map[string][]string{}, map[string][]string{} // by type
+		for _, d := range rec {
+			if cc[d] == 0 && rc[d] > 0 {
+				gone[d.Type] = append(gone[d.Type], d.Name)
+				rc[d] = 0
+			}
+		}
+		for _, d := range cur {
+			if count(rec)[d] == 0 && cc[d] > 0 {
+				came[d.Type] = append(came[d.Type], d.Name)
+				cc[d] = 0
+			}
+		}
+		for t, g := range gone {
+			if c := came[t]; len(g) == 1 && len(c) == 1 {
+				if m == nil {
+					m = map[string]string{}
+				}
+				m[g[0]] = c[0]
+			}
+		}
+	}
 	w.renameCache[fn] = m
 	return m
 }
@@ -135,7 +261,20 @@ func cmdLocals(repo, root string) int {
 		println(err.Error())
 		return 2
 	}
-	println("recorded declared variables of", len(out), "functions")
+	lv := map[string]map[string][]string{}
+	for k, fs := range w.Specs {
+		if fn := w.LookupFunc(fs); fn != nil && len(fn.Blocks) > 0 {
+			if m := w.loopVarsOf(fn); len(m) > 0 {
+				lv[k] = m
+			}
+		}
+	}
+	b2, _ := json.MarshalIndent(lv, "", " ")
+	if err := os.WriteFile(filepath.Join(root, "specs", "loopvars.json"), b2, 0o644); err != nil {
+		println(err.Error())
+		return 2
+	}
+	println("recorded declared variables of", len(out), "functions, loop-carried variables of", len(lv))
 	return 0
 }
 
@@ -148,4 +287,23 @@ func (w *World) aliasOld(fn *ssa.Function, vars map[string]Value) {
 			}
 		}
 	}
+}
+
+// vanishedInt: name was an int-typed declared variable of fn when the contracts were recorded and is not one now.
+func (w *World) vanishedInt(fn *ssa.Function, name string) bool {
+	was := false
+	for _, d := range w.recLocals[funcKey(fn)] {
+		if d.Name == name && d.Type == "int" {
+			was = true
+		}
+	}
+	if !was {
+		return false
+	}
+	for _, d := range w.declsOf(fn) {
+		if d.Name == name {
+			return false
+		}
+	}
+	return true
 }
